@@ -125,6 +125,20 @@ def cases(tier, seed):
                     for sup in ([[1, 0, 0], [0, 1, 0], [0, 0, 1]], [[1, 0, 0], [0, 1, 1], [0, 0, 2]]):
                         out.append(dict(sizes=list(sizes), E=E, k=3, support=sup, pattern="dense", fd=fd, mask=None,
                                         hermitian=True, repr=rep, vset=0, total=3))
+    # masks on two blocks at once (every pair of admissible masks), one and two perturbation orders
+    for sizes, bl in (((2, 2), (0, 1)), ((2, 1, 2), (0, 2)), ((3, 2), (0, 1))):
+        off = lattice.offsets(sizes)
+        for E in lattice.level_patterns(sizes):
+            ma = list(lattice.sym_masks(sizes[bl[0]], [tuple(e) for e in E[off[bl[0]]:off[bl[0] + 1]]], True))
+            mb = list(lattice.sym_masks(sizes[bl[1]], [tuple(e) for e in E[off[bl[1]]:off[bl[1] + 1]]], True))
+            for m0 in ma:
+                for m1 in mb:
+                    for sup in ([[1]], [[1], [2]]):
+                        for rep in ("dense", "csr") if sum(sizes) > 4 else ("sympy", "dense", "csr"):
+                            if rep == "sympy" and sup != [[1]]:
+                                continue
+                            out.append(dict(sizes=list(sizes), E=E, k=1, support=sup, pattern="dense", fd=None,
+                                            mask={str(bl[0]): m0, str(bl[1]): m1}, hermitian=True, repr=rep, vset=0, total=3))
     # every admissible symmetric mask on each block in turn
     for st in lattice.mask_structures(3 if tier == "quick" else 4, hermitian=True):
         for rep in ("sympy", "dense", "csr"):
